@@ -99,6 +99,8 @@ def h_parse_graph(n: int, prefixes: tuple, which: int, entry: str, **sym):
     kinds, texts, linenos, offs = _collect(n, sym, prefixes, which)
     _bound_texts(texts, 1)
     toks = tk.make_tokens(kinds, texts, linenos, offs)
+    from vflib.engine import case
+    case(('token kinds', kinds, 'texts', texts))
     # reference
     ref = tk.RefParser(kinds, texts, linenos, offs)
     try:
@@ -371,6 +373,8 @@ def h_parse_multiline(k: int, entry: int, **sym):
             bound_int(si, 0, len(ML_SEPS))
             pieces.append(progs.pick(si, ML_SEPS))
     text = ''.join(pieces)
+    from vflib.engine import case
+    case(text)
     kinds, texts, linenos, offs = [], [], [], []
     for ln, line in enumerate(ref_split_lines(text), 1):
         for t, x, o in ref_lex_line(line):
